@@ -75,7 +75,7 @@ def describe(tier):
             "fresh-scanner result. (2b) every input of the mix/shell/net/concat/kw scan-level families is scanned at depth 10, 1, 10 on one long-lived scanner: first and third tree must be equal, the first tree must not change while the later scans run, and the depth-1 tree must equal that of a scanner only ever used at depth 1. (3) Enumeration orders: ALL permutations of the iteration order of every keyword set and of every directory listing "
             "of the fixture keyword directory (seams: multidecoder.registry.set, os.walk), and for the shipped keywords ALL relative orders of the files of "
             "every group of files that share a word ignoring case; the trees of witness inputs must all be equal. (3b) every set of str/bytes built by ANY multidecoder.* module while a witness is scanned "
-            f"(seam: `set`/`frozenset` in each module namespace) is iterated in each of the orders {SET_ORDERS}; witnesses include xor-ed byte arrays with tied key candidates (multi-byte key guesser). (4) Processes: the same witness inputs "
+            f"(seam: `set`/`frozenset` in each module namespace) is iterated in each of the orders {SET_ORDERS}; witnesses include xor-ed byte arrays with tied key candidates (multi-byte key guesser). (3c) six pairs of inputs that agree on their first 4 KiB / 64 KiB and differ afterwards (two PE images with the same header page, long texts, base64, hex, UTF-16) in 5 histories x shared / fresh scanner, each history in a fresh process, every tree compared with the single-input fresh-process tree. (4) Processes: the same witness inputs "
             f"and the CLI in fresh processes under PYTHONHASHSEED {list(SEEDS[tier])[0]}..{list(SEEDS[tier])[-1]} (and interpreter optimisation levels none / -O / -OO) must give byte-identical JSON, equal to the in-process result. "
             "states = distinct scheduler switch points (thread-0 location, thread-1 location) + history states + registry orders, transitions = scheduler steps + "
             "history transitions, traces = executions compared. Non-trivial = schedule in which a preemption really interleaved two scans (both threads alive)."
@@ -125,6 +125,8 @@ def plan(tier, seed):
     units += [("orders-shipped", i, 8) for i in range(8)]
     units.append(("seeds", tier))
     units += [("setorder", i) for i in range(len(WITNESS))]
+    units += [("prefix", i) for i in range(len(prefix_pairs()))]
+    units += [("returned-lists", i, 8) for i in range(8)]
     return units
 
 
@@ -524,6 +526,109 @@ def run_setorder(rec, wi):
     rec.sample({"set_orders": SET_ORDERS, "witness": wi})
 
 
+# ---- (3c) inputs that share a long prefix ------------------------------------------------------------------------------------
+
+
+def prefix_pairs():
+    """Pairs of inputs that agree on their first 4 KiB / 64 KiB and differ afterwards (anything remembered under a key made from the head of
+    the input - a header page, a hash of the first block - confuses exactly such inputs)."""
+    import struct
+
+    from mdmc import pegen
+
+    a = bytearray(pegen.valid_pe_big(0x1000, 1))
+    sec = 0x1000 + 4 + 20 + 0xE0
+    b = bytearray(a)
+    struct.pack_into("<I", b, sec + 16, 0x400)  # SizeOfRawData of the only section: 0x200 -> 0x400
+    struct.pack_into("<I", b, sec + 8, 0x400)
+    b += b"\xcc" * 0x200
+    assert a[:0x1000] == b[:0x1000] and a != b
+    fill4k = (b"lorem ipsum dolor sit amet, " * 200)[:4100]
+    fill64k = (b"consectetur adipiscing elit; " * 2400)[:65600]
+    b64head = (b"QUJDREVGR0hJSktMTU5PUFFSU1RVVldYWVo" * 200)[:8192]
+    return [
+        ("pe-same-header-page", b"dropper: " + bytes(a) + b" end", b"dropper: " + bytes(b) + b" end"),
+        ("text-4k", fill4k + b" http://first.example.com/a.exe", fill4k + b" http://second.example.org/b.dll 8.8.4.4"),
+        ("text-64k", fill64k + b" bob@example.org strlen", fill64k + b" alice@example.com StrLen cmd /c echo hi"),
+        ("base64-8k", b"x " + b64head + b"QUJD y", b"x " + b64head + b"WFla y"),
+        ("hex-4k", b"x " + b"68747470" * 512 + b"3a2f2f61 y", b"x " + b"68747470" * 512 + b"3a2f2f62 y"),
+        ("utf16-4k", b"\x01" + "".join(chr(97 + i % 26) for i in range(2100)).encode("utf-16le") + "X.exe".encode("utf-16le") + b"\x01\x02",
+         b"\x01" + "".join(chr(97 + i % 26) for i in range(2100)).encode("utf-16le") + "Y.dll".encode("utf-16le") + b"\x01\x02"),
+    ]
+
+
+PREFIX_CHILD = r"""
+import sys, pickle, base64, hashlib
+from multidecoder.multidecoder import Multidecoder
+from mdmc import trees
+inputs = pickle.loads(sys.stdin.buffer.read())
+shared = Multidecoder()
+out = []
+for j, d in enumerate(inputs):
+    md = shared if sys.argv[1] == "shared" else Multidecoder()
+    out.append(hashlib.sha1(repr(trees.tup(md.scan(d))).encode()).hexdigest())
+print(" ".join(out))
+"""
+
+
+def _prefix_child(inputs, how):
+    import base64
+    import pickle
+
+    r = subprocess.run([sys.executable, "-W", "ignore::DeprecationWarning", "-c", PREFIX_CHILD, how], input=pickle.dumps(inputs), capture_output=True, timeout=600)
+    if r.returncode != 0:
+        raise core.HarnessError("prefix child failed: " + r.stderr.decode("latin-1")[-400:])
+    return r.stdout.decode().split()
+
+
+def run_prefix(rec, i):
+    name, x, y = prefix_pairs()[i]
+    alone = {"x": _prefix_child([x], "fresh")[0], "y": _prefix_child([y], "fresh")[0]}
+    if alone["x"] == alone["y"]:
+        raise core.HarnessError(f"prefix pair {name}: both inputs give the same tree")
+    data = {"x": x, "y": y}
+    for how in ("shared", "fresh"):
+        for hist in (("x", "y"), ("y", "x"), ("x", "x", "y"), ("x", "y", "x"), ("y", "y", "x")):
+            rec.count("evaluations")
+            rec.mark("states", ("prefix", name, how, hist), True)
+            got = _prefix_child([data[h] for h in hist], how)
+            rec.count("traces")
+            rec.count("transitions", len(hist))
+            rec.mark("nontrivial", 0, True)
+            for k, h in enumerate(hist):
+                if got[k] != alone[h]:
+                    rec.violation("C09.history.same-tree", f"prefix-sharing-input|{name}", {"kind": "prefix", "pair": i, "history": list(hist), "scanner": how},
+                                  f"inputs '{name}' agree on their head and differ afterwards: after the history {hist[:k]} ({how} scanner per scan) the tree of "
+                                  f"'{h}' differs from its tree in a fresh process", i * 10 + k)
+                    break
+    rec.sample({"prefix_pair": name, "lengths": [len(x), len(y)], "histories": 10})
+
+
+def run_returned_lists(rec, part, nparts):
+    """Every entry of the default registry x witness inputs: the returned list is the caller's (appending to it must not change later results)."""
+    reg = Multidecoder().decoders
+    inputs = [b"", b"plain text without anything", b"\x00\x01"] + WITNESS[:4]
+    for ei in range(part, len(reg), nparts):
+        entry = reg[ei]
+        for di, data in enumerate(inputs):
+            rec.count("evaluations")
+            rec.mark("states", ("retlist", ei, di), True)
+            w = {"kind": "returned-list", "entry": ei, "input": di}
+            ok, hits = rec.guard("C09.total", w, ei, entry, data)
+            if not ok:
+                continue
+            rec.count("traces")
+            rec.count("transitions")
+            if hits:
+                rec.mark("nontrivial", 0, True)
+            ok2, mine = rec.guard("C09.total", w, ei, trees.result_is_callers, entry, data, hits)
+            if ok2 and not mine:
+                name = getattr(entry, "__name__", None) or str(getattr(entry, "args", ["?"])[0])
+                rec.violation("C09.history.same-tree", "decoder-hands-out-shared-list", w,
+                              f"registry entry #{ei} ({name}) on witness input #{di}: after the caller appended to the returned list the same call gives a different result", ei)
+    rec.sample({"registry_entries": len(reg), "inputs": len(inputs)})
+
+
 # ---- (4) processes --------------------------------------------------------------------------------------------------
 
 CHILD = r"""
@@ -637,6 +742,10 @@ def run_unit(unit, rec):
         run_seeds(rec, unit[1])
     elif kind == "setorder":
         run_setorder(rec, unit[1])
+    elif kind == "prefix":
+        run_prefix(rec, unit[1])
+    elif kind == "returned-lists":
+        run_returned_lists(rec, unit[1], unit[2])
 
 
 def replay(w, rec):
@@ -654,6 +763,10 @@ def replay(w, rec):
         run_seeds(rec, "quick")
     elif k == "setorder":
         run_setorder(rec, w["witness"])
+    elif k == "prefix":
+        run_prefix(rec, w["pair"])
+    elif k == "returned-list":
+        run_returned_lists(rec, w["entry"] % 8, 8)
     elif k == "twice":
         from mdmc.engines import streams
         md = Multidecoder(streams.registry())
